@@ -140,6 +140,7 @@ def run_arrays(rng, n_cases, res):
         if n >= 64 and rng.random() < 0.5: codes[rng.randrange(4)] = hi if rng.random() < 0.5 else lo     # a code beyond int64 among small ones
         shape = rng.choice([(4,), (2, 2)])
         cases.append({'f': [s, n, nf], 'codes': codes, 'shape': list(shape)})
+        if rng.random() < 0.5: cases[-1]['rewrite'] = rng.choice(['view', 'view', 'sort', 'setitem'])
     run_array_cases(cases, res)
 
 def run_array_cases(cases, res):
@@ -173,6 +174,23 @@ def run_array_cases(cases, res):
                 ya = fx.Fxp(np.array(x.bin(prefix='0b')), s, n, nf, raw=True); za = fx.Fxp(None, s, n, nf); za.set_val(np.array(x.hex()), raw=True)
                 if lib.codes_of(ya) != codes or lib.codes_of(za) != codes:
                     res.fail(c, 'C11: feeding the rendered strings back as a NumPy string array does not restore the codes', expected=codes, got=(lib.codes_of(ya), lib.codes_of(za)))
+            if c.get('rewrite'):
+                # codes changed in place AFTER a rendering (through a view, a row, an element write or sort()): the next rendering shows the codes held now
+                lo_, hi_ = S.fmt_bounds(s, n); mode = c['rewrite']; after = list(codes)
+                newc = lo_ if codes[1] != lo_ else hi_
+                for kind in ('bin', 'hex', 'bin_dot'):
+                    x = A.mk(fx, np, s, n, nf, codes, shape=shape); after = list(codes)
+                    render = {'bin': lambda: x.bin(), 'hex': lambda: x.hex(), 'bin_dot': lambda: x.bin(frac_dot=True)}[kind]
+                    render()
+                    if mode == 'sort' and shape == (4,): x.sort(); after = sorted(codes)
+                    elif mode == 'view' and shape == (4,): v_ = x[1:3]; v_[0] = A.mk(fx, np, s, n, nf, newc); after[1] = newc
+                    elif mode == 'view': r_ = x[0]; r_[1] = A.mk(fx, np, s, n, nf, newc); after[1] = newc
+                    else: x[1 if shape == (4,) else (0, 1)] = A.mk(fx, np, s, n, nf, newc); after[1] = newc
+                    if lib.codes_of(x) != after: break      # (whether the write itself works is C04 / C20's matter)
+                    got_ = [str(t) for t in np.array(render()).reshape(-1).tolist()]
+                    want_ = {'bin': [py_bin(n, t) for t in after], 'hex': ['0x' + py_hex(n, t) for t in after], 'bin_dot': [insert_point(py_bin(n, t), nf) for t in after]}[kind]
+                    if got_ != want_:
+                        res.fail(dict(c, render=kind), 'C11: bin()/hex() of an array after its codes were changed in place (%s) is not the image of the codes it holds' % mode, expected=want_, got=got_); break
         except Exception as e:
             res.fail(c, 'C11: rendering or parsing an array raised %s' % lib.exc_name(e), got=str(e)[:300])
 
